@@ -94,6 +94,11 @@ CHECKS["C06"] = dict(
     text="Exhaustive over all event sequences of <= 3 captions with gaps 0..8 / 40 frames and erases after 30..32 frames or none (design model), and over a replay grid 1-3 captions x erase inline / separate / absent x gap 0-8 frames x drop / non-drop x single / doubled x offset 0-2 s plus flash captions; random programs up to 23:59:59:29 with random offsets beyond. Exact arithmetic in thirds of a microsecond (BigNat), 2 ns tolerance for the reader's floats; the timing error is demanded exactly when a displayed duration is below 50 ms.",
     design="4 C06")
 
+CHECKS["C15"] = dict(
+    technique="TLA+ spec SccText.tla: the rows a stream transmits are computed by TLC from the abstract program (SentRows); MC_LineLen checks the design model of the per-start-time length scan against 'raises iff a long line exists and names them all'; recorded SCCReader outcomes (exception and named lines, or returned line lengths) are judged by Trace_SccText",
+    text="Exhaustive over all caption lists of <= 4 captions over two start keys x {short, long} for the scan's design model, and over every combination of 1-3 rows with lengths from {5, 31, 32, 33, 40} in every order for pop-on buffers (non-adjacent rows = captions sharing a start, adjacent rows = lines of one caption, one or two buffers), roll-up and paint-on streams; random streams with rows of 0-40 characters in the three modes beyond.",
+    design="4 C15")
+
 NOT_YET = {}
 
 
